@@ -52,7 +52,8 @@ Inductive op :=
 | OStep (x : aarg) (k : Z)
 | OGen (i : nat) (x : aarg) (k : Z)    (* generative step on the i-th state of the pool *)
 | OGoal (i : nat)
-| OMask.
+| OMask
+| OInit.                             (* generate_initial_state(): a fresh initial state; the environment is untouched *)
 
 Inductive opout :=
 | RReset (obs : obsmat) (st : state)
@@ -60,6 +61,7 @@ Inductive opout :=
 | RGen (o : stepout) (steps : nat)
 | RGoal (b : bool)
 | RMask (m : list bool)
+| RInit (st : state)
 | RError.
 
 (* [pool]: every state handed out so far (initial, after resets, steps, generative steps),
@@ -91,6 +93,7 @@ Definition run_op (sc : scenario) (m : modes) (ep : env * list state) (o : op)
       | None => (ep, RError)
       end
   | OMask => if flat_actions m then (ep, RMask (action_mask sc (e_state e))) else (ep, RError)
+  | OInit => ((e, pool ++ [initial_state sc]), RInit (initial_state sc))
   end.
 
 Fixpoint run_ops (sc : scenario) (m : modes) (ep : env * list state) (ops : list op)
